@@ -683,7 +683,7 @@ impl<R, T, F, M> Link<R, T, F, M> {
                     (LinkState::Attached, true) => LinkState::CloseSent,
                     _ => LinkState::Closed,
                 })
-            &&& legal && old(self).output_handle is Some ==> final(self).output_handle is None                // [C13.link.handle-released-when-detach-sent] the output handle is given up exactly when the detach is sent, so no later frame can use it
+            &&& legal && old(self).output_handle is Some ==> final(self).output_handle is None                // [C13.link.handle-released-when-detach-sent] the output handle is given up exactly when the detach is sent, so no later frame can use it [C11.handle.given-up-with-the-detach] -- the session frees the number when it sees this detach and may hand it to another link at once: a link that still holds it would later detach (Drop) a handle that is no longer its own and release the NEW holder's handle and name
                     && (r is Ok ==> final(writer).sent@ == old(writer).sent@.push(LinkFrame::Detach(Detach { handle: Handle(old(self).output_handle->Some_0.0), closed, error })))   // [C13.link.detach-frame] the detach carries the link's handle, the closed flag and the caller's error
                     && (r is Err ==> final(writer).sent@ == old(writer).sent@ && final(writer).failures@ > old(writer).failures@)   // [C13.link.detach-fails-only-with-channel] with a handle and in a legal state the detach is queued unless the channel to the session is gone (this is the contract unit LINKDETACH relies on)
             &&& legal && old(self).output_handle is None ==> r is Err && final(writer).sent@ == old(writer).sent@   // [C13.link.no-frame-after-detach] without a handle nothing is sent
